@@ -33,4 +33,5 @@ def run(ctx):
     worlds += cw.junk_worlds('c07')
     worlds += cw.extra_worlds('c07', g, ctx.tier, ORACLES)
     run_suite(ctx, 'clean.C07', worlds, known=known, chunk=200)
+    run_suite(ctx, 'clean.symlinked-dir', cw.symlink_worlds('c07'), known=known, use_model=False)
     findings.report(ctx, 'C07')
